@@ -685,17 +685,18 @@ def main(argv):
         ctx = multiprocessing.get_context('fork')
         # interleave suites so long ones start early
         tasks.sort(key=lambda t: (t[3], t[1]))
-        with ctx.Pool(min(NPROC, len(tasks)), maxtasksperchild=1) as pool:
+        pool = ctx.Pool(min(NPROC, len(tasks)), maxtasksperchild=1)
+        try:
             for r in pool.imap_unordered(_worker, tasks, chunksize=1):
                 results.append(r)
                 if r.get('harness_error'):
                     harness_errors.append((r['suite'], r['shard'], r['harness_error']))
-                    pool.terminate()
                     break
                 if r.get('fail'):
                     if r['fail']['index'] < 0 or os.environ.get('VERIF_FIRST_FAIL', '1') == '1':
-                        pool.terminate()
                         break
+        finally:
+            _close_pool(pool)
 
     # ---- coverage-guided campaigns (suites that provide fuzz_decode; thorough tier by default)
     fuzz_agg, fuzz_fail, fuzz_notes = ({}, None, [])
@@ -762,6 +763,23 @@ def main(argv):
           % (prop, tier, base_seed, total, nt, len(agg), wall,
              'OK' if rc == 0 else ('VIOLATION' if rc == 1 else 'HARNESS-ERROR')))
     return rc
+
+
+def _close_pool(pool):
+    """Pool.terminate() can deadlock when a worker is killed while it holds the task queue's lock (seen once, while a
+    violation was being reported): give it 30 s in a helper thread, then kill the workers and leave the pool behind; the
+    process then ends through os._exit so that no finaliser waits for the dead pool."""
+    import threading
+    t = threading.Thread(target=pool.terminate, daemon=True)
+    t.start()
+    t.join(30)
+    if t.is_alive():
+        for p in list(getattr(pool, '_pool', None) or []):
+            try:
+                p.kill()
+            except Exception:  # noqa
+                pass
+        _CTX['force_exit'] = True
 
 
 def _run_environments(prop, tier, argv):
@@ -881,4 +899,7 @@ if __name__ == '__main__':
     finally:
         boot.cleanup()
     sys.stdout.flush()
-    os._exit(rc) if False else sys.exit(rc)
+    sys.stderr.flush()
+    if _CTX.get('force_exit'):
+        os._exit(rc)
+    sys.exit(rc)
